@@ -175,6 +175,7 @@ type File struct {
 	Extends string
 	Imports []string
 	Body    []Stmt
+	Broken  bool // the file exists but does not parse (its source is an unterminated control structure)
 }
 
 // Program is a closed test case: a template set, an entry point and its inputs.
@@ -250,6 +251,9 @@ func (p *Printer) Source(f *File) string {
 	p.b.Reset()
 	p.line = 1
 	p.file = f.Name
+	if f.Broken {
+		return "before" + p.L + "if" + p.R + "no end"
+	}
 	if f.Extends != "" {
 		p.w(p.L + "extends " + strconv.Quote(f.Extends) + p.R)
 	}
